@@ -16,4 +16,5 @@ native.Native(d, print)
 print('native ready in %.1fs' % (time.time() - t))
 PY
 python3-vt "$DIR/engine/selftest.py"
+python3-vt "$DIR/tools/std_selftest.py"
 echo setup ok
